@@ -1959,10 +1959,18 @@ def body(ctx):
     entries = build_entries(H)
     pristine = Pristine(H, entries)          # forked before any library function has run in this process
     try:
+        import time
+        t = [time.time()]
         inventory(ctx, H, entries)
+        t.append(time.time())
         correspondence(ctx, H, rec)
+        t.append(time.time())
         oracle(ctx, H, rec, entries)
+        t.append(time.time())
         histories(ctx, H, entries, pristine)
+        t.append(time.time())
+        ctx.extra["phase_seconds"] = dict(zip(("inventory", "correspondence", "oracle", "histories"),
+                                              (round(b - a, 1) for a, b in zip(t, t[1:]))))
     finally:
         pristine.close()
         rec.uninstall()
